@@ -26,7 +26,7 @@ FUNCTIONS = ['dtw_distance, dtw_distance_euclidean, dtw_distance_ndim, dtw_dista
 BOUNDS = {'quick': {'l1,l2': '1..4 (max_dist: l1*l2 <= 9; max_step, use_pruning: l1*l2 <= 6)', 'window': '0..max+1', 'psi': 'core 4-tuples + seeded slice, entries <= length',
                     'ndim': '1..2', 'inner_dist': '0,1', 'blocks': 'all, n <= 4', 'dba': '2 series, t and lengths 1..3, windows 0..2, psi 0/1, ndim 1..2, plus (t=5, lengths 5,3) and (t=4, lengths 2,5) with windows 1..2',
                     'affinity': 'l1,l2 1..3 all windows, only_triu both, plus 5x5, 5x6, 6x4 with windows 2..3', 'wps helpers': 'l1,l2 1..3 all windows; 5x5, 4x6, 6x3 (concrete data) windows 1..3; row/column ranges incl. row 0'},
-          'thorough': {'l1,l2': '1..5 (data dependent control: l1*l2 <= 12)', 'window': '0..max+1', 'psi': 'all 4-tuples <= min(length,3)',
+          'thorough': {'l1,l2': '1..5 (max_dist: l1*l2 <= 9; max_step, use_pruning: l1*l2 <= 8; all three together: <= 6)', 'window': '0..max+1', 'psi': 'all 4-tuples <= min(length,3)',
                        'ndim': '1..3', 'inner_dist': '0,1', 'blocks': 'all, n <= 5', 'dba': 'as quick with t and lengths 1..4, plus (t=6, lengths 6,4), (t=3, lengths 6,2)', 'affinity': 'l1,l2 1..4', 'wps helpers': 'l1,l2 1..4'}}
 OUTSIDE = ['allocation failure (malloc never returns NULL in the model)', 'idx_t overflow for huge sizes', '*_prob and printing routines',
            'reads of uninitialised caller output buffers (they are modelled as zero filled)', 'the Cython layer']
@@ -191,11 +191,11 @@ def run_task(cfg):
     sample = None
     if fam in ('distance', 'wps'):
         l1, l2, ndim, inner = cfg['l1'], cfg['l2'], cfg['ndim'], cfg['inner']
-        fork_ok = l1 * l2 <= (6 if tier == 'quick' else 12)
+        fork_ok = l1 * l2 <= (6 if tier == 'quick' else 8)
         optsets = [{}, {'pen': True}]
         if fork_ok:
             optsets += [{'step': True}, {'md': True}, {'prune': True}]
-            if l1 * l2 <= (4 if tier == 'quick' else 9):
+            if l1 * l2 <= (4 if tier == 'quick' else 6):
                 optsets += [{'step': True, 'md': True, 'pen': True}]
         elif l1 * l2 <= 9:
             optsets += [{'md': True}]
